@@ -181,14 +181,14 @@ type vWire struct {
 	partialOn   bool          // the partialAt-th Write call accepts only partialN bytes and reports a timeout
 	partialAt   int
 	partialN    int
-	writes      int // Write calls that got as far as the socket
-	rdeadline   bool // a read deadline is set (SetReadDeadline / SetDeadline with a non-zero time)
-	wdeadline   bool // a write deadline is set
-	stallAt     int  // if a read deadline is set: the peer stalls once after this many bytes of the stream (0: never) ...
-	stalled     bool // ... it has
-	stallNext   bool // ... and the next Read reports the timeout
-	readPos     int  // bytes delivered so far
-	partialDL   bool // the partial write below happens only if a write deadline is set
+	writes      int           // Write calls that got as far as the socket
+	rdeadline   bool          // a read deadline is set (SetReadDeadline / SetDeadline with a non-zero time)
+	wdeadline   bool          // a write deadline is set
+	stallAt     int           // if a read deadline is set: the peer stalls once after this many bytes of the stream (0: never) ...
+	stalled     bool          // ... it has
+	stallNext   bool          // ... and the next Read reports the timeout
+	readPos     int           // bytes delivered so far
+	partialDL   bool          // the partial write below happens only if a write deadline is set
 	more        chan struct{} // closed by feedEOF: a Read blocked on a live wire looks again
 	eof         bool          // set by feedEOF: once the chunks are exhausted Read reports EOF instead of waiting
 }
@@ -323,8 +323,8 @@ func (w *vWire) Close() error {
 	}
 	return nil
 }
-func (w *vWire) LocalAddr() net.Addr                { return nil }
-func (w *vWire) RemoteAddr() net.Addr               { return nil }
+func (w *vWire) LocalAddr() net.Addr  { return nil }
+func (w *vWire) RemoteAddr() net.Addr { return nil }
 func (w *vWire) SetDeadline(t time.Time) error {
 	w.rdeadline, w.wdeadline = !t.IsZero(), !t.IsZero()
 	return nil
